@@ -45,6 +45,19 @@ class AuthBench:
             chk.evals += 1
             if o2 != il and not (o2.startswith("ERR") and il.startswith("ERR") and a.typ != "public-key"):
                 chk.violation(f"the same call with {nm} gives another outcome ({label}): {o2[:50]} instead of {il[:50]}", f"argument-shape auth {nm} {label.split('+')[0]}", dict(rp, argument_shape=nm, outcome=o2))
+        # parameters the changed source ADDED to this entry point: whatever value they are given, a response that is refused without them stays refused (an option cannot
+        # buy acceptance of a deviating response)
+        if not il.startswith("OK"):
+            import webauthn as _w9
+            for pname, pval in impl.new_parameter_values("verify_authentication_response"):
+                kw9 = pol.kwargs()
+                kw9[pname] = pval
+                o9 = impl.outcome(lambda: _w9.verify_authentication_response(credential=val, **kw9), impl.pr_verified_auth)
+                chk.evals += 1
+                if o9.startswith("OK"):
+                    chk.violation(f"with the new argument {pname}={pval!r} a response that is otherwise refused ({il[:40]}) is accepted ({label})", f"new-parameter auth {pname} {label.split('+')[0]}",
+                                  dict(rp, new_argument={pname: repr(pval)}, outcome_with_it=o9))
+                    break
         # a policy switch that has its documented default may as well be left out of the call
         if pol.require_uv is False:
             import webauthn as _w
